@@ -314,6 +314,12 @@ class UnaryExpression(MathExpression):
         else:
             return self.right
 
+    def clone(self) -> "UnaryExpression":  # type:ignore[override]
+        result = cast(UnaryExpression, super().clone())
+        # keep the operand side, so get_child() finds the copied operand
+        result.child_on_left = self.child_on_left
+        return result
+
     def evaluate(self, context: Optional[Dict[str, NumberType]] = None) -> float:
         child = self.get_child()
         if child is None:
